@@ -190,11 +190,52 @@ class Check(Partial):
                 self.merge(_guard(fn, it))
             return
         ctx = multiprocessing.get_context('fork')
+        limit = float(os.environ.get('VF_JOB_LIMIT', '0') or 0) or (1800.0 if self.quick else 10800.0)
         with ctx.Pool(min(self.workers, len(items))) as pool:
-            for part in pool.imap(_Guard(fn), items, chunksize):
-                if isinstance(part, _WorkerFailure):
-                    raise HarnessError('worker failed:\n' + part.text)
-                self.merge(part)
+            try:
+                for part in bounded_imap(pool, _Guard(fn), items, chunksize, limit):
+                    if isinstance(part, _WorkerFailure):
+                        raise HarnessError('worker failed:\n' + part.text)
+                    self.merge(part)
+            except JobTimeout as e:
+                # a job of this check takes seconds to a few minutes: code under test that no longer returns
+                idx = e.index
+                self.case(key=('hang', idx), outcome=('hang',))
+                self.sample({'part': 'hang', 'job_index': idx, 'job': repr(items[idx])[:200]})
+                self.cap('job %d gave no result within %.0f s of real time; the remaining jobs were not run' % (idx, limit))
+                self.violation('hang:job_without_result', 'job %d of %d (%.200r) gave no result within %.0f s of real time: '
+                               'code under test does not return' % (idx, len(items), items[idx], limit),
+                               {'part': 'hang', 'job_index': idx})
+
+
+class _ChunkRunner:
+    def __init__(self, fn):
+        self.fn = fn
+
+    def __call__(self, chunk):
+        return [self.fn(x) for x in chunk]
+
+
+class JobTimeout(Exception):
+    def __init__(self, index):
+        Exception.__init__(self, 'no result for item %d' % index)
+        self.index = index
+
+
+def bounded_imap(pool, fn, items, chunksize, limit):
+    """pool.imap(fn, items, chunksize) in order, but waiting at most `limit` seconds of real time for the next chunk of
+    results: JobTimeout(index of the first item of the chunk that did not arrive)."""
+    items = list(items)
+    chunksize = max(1, int(chunksize))
+    chunks = [items[i:i + chunksize] for i in range(0, len(items), chunksize)]
+    it = pool.imap(_ChunkRunner(fn), chunks, 1)
+    for ci in range(len(chunks)):
+        try:
+            res = it.next(timeout=limit)
+        except multiprocessing.TimeoutError:
+            raise JobTimeout(ci * chunksize)
+        for r in res:
+            yield r
 
 
 class _WorkerFailure:
@@ -332,7 +373,14 @@ def finish(ck):
     with open(tmp, 'w') as f:
         json.dump(ev, f, indent=1)
     os.replace(tmp, epath)
-    _validate_evidence(epath)
+    try:
+        _validate_evidence(epath)
+    except HarnessError:
+        if not new:
+            raise
+        # a run that was cut short by a violation (a hang in the first job) may not have covered enough for the schema's
+        # minimum counts; the verdict stands
+        print('note: evidence of this violating run does not meet the schema minimums (run cut short)')
     print('%s tier=%s evaluations=%d distinct=%d outcomes=%d states=%d transitions=%d '
           'violations=%d known=%d wall=%.1fs%s' % (
               ck.id, ck.tier, ck.evaluations, len(ck.distinct), len(ck.outcomes), ck.states,
